@@ -34,6 +34,9 @@ func selftest(seed uint64, seeds, par int) int {
 	var jobs []job
 	for _, p := range []string{"C11", "C13", "C18"} {
 		for i := 0; i < seeds; i++ {
+			if o := os.Getenv("VERIF_SELFTEST_ONLY"); o != "" && o != fmt.Sprintf("%s:%d", p, i) {
+				continue
+			}
 			jobs = append(jobs, job{p, i})
 		}
 	}
@@ -91,7 +94,7 @@ func selftest(seed uint64, seeds, par int) int {
 					if r.infra != "" {
 						diffs = append(diffs, "replay infra: "+r.infra)
 					} else if r.res.EventHash != tapes.EventHash || r.res.OutcomeHash != tapes.OutcomeHash {
-						diffs = append(diffs, "replay from tapes diverged: "+r.res.EventHash+" vs "+tapes.EventHash)
+						diffs = append(diffs, fmt.Sprintf("replay from tapes diverged: %s vs %s (kind %s, scheduler %s, %d decisions, %d steps vs %d)", r.res.EventHash, tapes.EventHash, s.Kind, modeNames[s.Sched.Mode&3], len(tapes.Tape), r.res.Steps, tapes.Steps))
 					}
 				}
 				mu.Lock()
